@@ -78,7 +78,10 @@ class Peer:
     first connection (cut_at = -1: right after accepting, before any request)."""
 
     def __init__(self, rec: Recorder, tk: str, *, cut_at: int | None, kind: str, cut_delay_ms: int,
-                 restart_ms: int | None, reply: bytes = REPLY, warm: int = 0) -> None:
+                 restart_ms: int | None, reply: bytes = REPLY, warm: int = 0, mute_handshake: int = 0) -> None:
+        # mute_handshake: the rebooting gateway already accepts TCP but leaves the routing activation of the first
+        # n reconnect attempts unanswered (DoIP only)
+        self.mute_handshake = mute_handshake
         self.rec, self.tk, self.cut_at, self.kind = rec, tk, cut_at, kind
         self.warm = warm  # exchanges answered normally on the first connection before the one that is cut
         self.cut_delay_ms, self.restart_ms, self.reply = cut_delay_ms, restart_ms, reply
@@ -127,6 +130,10 @@ class Peer:
         self.bufs[n] += data
         for req in self._requests(n):
             if req == b"ROUTING":
+                if n >= 2 and self.mute_handshake > 0:
+                    self.mute_handshake -= 1
+                    self.rec.add("Muted")
+                    continue
                 w.feed(D.enc({"k": "RoutingResp", "src": D.TGT, "dst": D.SRC, "code": 0x10, "d": []}))
                 continue
             stream, complete_at = answer_stream(self.tk, req, self.reply)
@@ -243,14 +250,16 @@ def transport_case(tk: str, cut_at: int, kind: str, tmo: float | None, cut_delay
 
 
 def client_case(tk: str, cut_at: int, kind: str, retries: int, restart_ms: int | None, cut_delay_ms: int,
-                warm: int = 0, follow_up: bool = False, via_config: bool = False) -> dict[str, Any]:
+                warm: int = 0, follow_up: bool = False, via_config: bool = False, mute_handshake: int = 0
+                ) -> dict[str, Any]:
     """via_config: the retry budget is given per request (UDSRequestConfig.max_retry, as the scanners do) on a
     client whose own budget is 0, instead of through the constructor."""
     rec = Recorder()
     rcfg = UDSRequestConfig(max_retry=retries) if via_config else None
 
     async def main() -> None:
-        peer = Peer(rec, tk, cut_at=cut_at, kind=kind, cut_delay_ms=cut_delay_ms, restart_ms=restart_ms, warm=warm)
+        peer = Peer(rec, tk, cut_at=cut_at, kind=kind, cut_delay_ms=cut_delay_ms, restart_ms=restart_ms, warm=warm,
+                    mute_handshake=mute_handshake)
         with patched_connections(peer.listener):
             tr = await transport_class(tk).connect(target(tk))
             cl = UDSClient(tr, timeout=1.0, max_retry=0 if via_config else retries)
@@ -282,7 +291,7 @@ def client_case(tk: str, cut_at: int, kind: str, retries: int, restart_ms: int |
     return {"cfg": {"ackTime": ACK[tk], "retries": retries, "expect": list(REPLY), "window": window}, "ev": ev,
             "tk": tk, "cut_at": cut_at, "kind": kind, "retries": retries, "restart": restart_ms,
             "cut_delay": cut_delay_ms, "level": "client", "notes": notes, "warm": warm, "follow_up": follow_up,
-            "via_config": via_config}
+            "via_config": via_config, "mute_handshake": mute_handshake}
 
 
 def validate(traces: list[dict[str, Any]]) -> tuple[dict[int, tuple[str, int]], list[Any]]:
@@ -333,7 +342,7 @@ def run(tier: str, seed: int) -> Report:
     seen: set[str] = set()
 
     def add(t: dict[str, Any]) -> None:
-        key = json.dumps([t["tk"], t["cfg"], t["cut_at"], t["kind"], t.get("cut_delay"), t.get("restart"), t.get("warm"), t.get("follow_up"), t.get("via_config"), t["ev"]])
+        key = json.dumps([t["tk"], t["cfg"], t["cut_at"], t["kind"], t.get("cut_delay"), t.get("restart"), t.get("warm"), t.get("follow_up"), t.get("via_config"), t.get("mute_handshake"), t["ev"]])
         if key in seen:
             return
         seen.add(key)
@@ -367,6 +376,8 @@ def run(tier: str, seed: int) -> Report:
                         add(client_case(tk, k, kind, R, restart, 0))
                         if R >= 1 and (tier == "thorough" or k % 6 == 0 or k <= 0):
                             add(client_case(tk, k, kind, R, restart, 0, via_config=True))
+                        if tk == "doip" and R >= 1 and restart in (0, 100) and (tier == "thorough" or k % 6 == 0 or k <= 0):
+                            add(client_case(tk, k, kind, R, restart, 0, mute_handshake=1))
                         if restart is not None and (tier == "thorough" or k % 6 == 0 or k <= 0):
                             add(client_case(tk, k, kind, R, restart, 0, follow_up=True))
                         if tier == "thorough":
